@@ -282,6 +282,50 @@ class IGraph:
             locs = locs[: maxlen // 2] + ["..."] + locs[-maxlen // 2 :]
         return " -> ".join(locs)
 
+    def cyclic_nodes(self):
+        """Node ids that lie on a cycle of the inlined graph (Tarjan, iterative)."""
+        index, low, on, stack, out = {}, {}, set(), [], set()
+        counter = [0]
+        for root in list(self.nodes):
+            if root in index:
+                continue
+            work = [(root, 0)]
+            while work:
+                v, i = work.pop()
+                if i == 0:
+                    index[v] = low[v] = counter[0]
+                    counter[0] += 1
+                    stack.append(v)
+                    on.add(v)
+                ss = self.succ.get(v, [])
+                rec = False
+                while i < len(ss):
+                    w = ss[i]
+                    i += 1
+                    if w not in index:
+                        work.append((v, i))
+                        work.append((w, 0))
+                        rec = True
+                        break
+                    elif w in on:
+                        low[v] = min(low[v], index[w])
+                if rec:
+                    continue
+                if low[v] == index[v]:
+                    comp = []
+                    while True:
+                        w = stack.pop()
+                        on.discard(w)
+                        comp.append(w)
+                        if w == v:
+                            break
+                    if len(comp) > 1 or v in self.succ.get(v, []):
+                        out.update(comp)
+                if work:
+                    u = work[-1][0]
+                    low[u] = min(low[u], low[v])
+        return out
+
     # ----- lifting terms to the entry's frame of reference
     def terms(self, fn):
         t = self._terms.get(fn.name)
